@@ -395,6 +395,76 @@ inline void genSatisfiable(vh::Rng &r, Scene &s, unsigned count, bool allowFixed
     }
 }
 
+// A jointly satisfiable mix whose *equalities* are non-redundant: every node takes part in at most
+// one equality-type constraint per dimension (alignment membership, equality separation,
+// fixed-relative group), so the equality system is a forest. VPSC's incremental satisfy() is known
+// to declare some redundant-but-consistent equality systems unsatisfiable; this generator keeps that
+// (separately reported) weakness out of scenario classes that must be quiet on the clean tree.
+inline void genForestSatisfiable(vh::Rng &r, Scene &s, unsigned count) {
+    unsigned n = (unsigned) s.rects.size();
+    // `used`: node is in an equality group in that dimension; `ineq`: node is in an inequality there.
+    // Equalities and inequalities never share a node in a dimension (VPSC's incremental satisfy()
+    // cannot always split a block across an inequality to admit a consistent equality: C01-static-eq).
+    std::vector<bool> used[2], ineq[2];
+    for (int d = 0; d < 2; ++d) { used[d].assign(n, false); ineq[d].assign(n, false); }
+    auto hd = [&](int d, unsigned i) { return d == 0 ? s.hx[i] : s.hy[i]; };
+    auto takeFree = [&](int d, unsigned m) { std::vector<unsigned> out;
+        for (unsigned i : pickSubset(r, n, n)) if (!used[d][i] && !ineq[d][i] && out.size() < m) out.push_back(i);
+        for (unsigned i : out) used[d][i] = true; return out; };
+    for (unsigned k = 0; k < count; ++k) {
+        int d = (int) r.range(0, 1);
+        switch ((int) r.range(0, 6)) {
+        case 0: case 1: {   // inequality separation
+            std::vector<unsigned> fr; for (unsigned i : pickSubset(r, n, n)) if (!used[d][i] && fr.size() < 2) fr.push_back(i);
+            if (fr.size() < 2) break;
+            unsigned a = fr[0], b = fr[1]; ineq[d][a] = ineq[d][b] = true;
+            if (hd(d, a) > hd(d, b)) std::swap(a, b);
+            double diff = hd(d, b) - hd(d, a);
+            CCSpec c; c.kind = CCSpec::SEPARATION; c.dim = d; c.l = a; c.r = b; c.eq = false;
+            c.gap = r.coin() ? diff / 2 : (r.coin() ? 0 : -q4(r, 0, 20)); if (c.gap > diff) c.gap = diff;
+            s.ccs.push_back(c); break; }
+        case 2: {           // alignment over free nodes
+            std::vector<unsigned> nodes = takeFree(d, (unsigned) r.range(1, 3));
+            if (nodes.empty()) break;
+            double p = q4(r, -100, 100);
+            addAlignment(s, d, p, nodes, false, q4(r, -100, 100)); break; }
+        case 3: {           // boundary
+            CCSpec c; c.kind = CCSpec::BOUNDARY; c.dim = d; double b = q4(r, -100, 100); c.pos = b;
+            for (unsigned i : pickSubset(r, n, (unsigned) r.range(1, std::min(n, 4u)))) {
+                if (used[d][i]) continue;
+                ineq[d][i] = true;
+                double h = hd(d, i);
+                c.offs.push_back(std::make_pair(i, h < b ? (h - b) / 2 : (h - b) / 2)); }
+            s.ccs.push_back(c); break; }
+        case 4: {           // separation between two alignments over free nodes
+            std::vector<unsigned> n1 = takeFree(d, (unsigned) r.range(1, 2)), n2 = takeFree(d, (unsigned) r.range(1, 2));
+            if (n1.empty() || n2.empty()) break;
+            double p1 = q4(r, -80, 80), p2 = p1 + q4(r, 0, 60);
+            size_t a1 = addAlignment(s, d, p1, n1, false, p1), a2 = addAlignment(s, d, p2, n2, false, p2);
+            CCSpec c; c.kind = CCSpec::SEPALIGN; c.dim = d; c.l = (unsigned) a1; c.r = (unsigned) a2; c.eq = true;
+            c.gap = p2 - p1; s.ccs.push_back(c); break; }
+        case 5: {           // distribution / multi-separation over single-node alignments
+            std::vector<size_t> al; double p = q4(r, -80, 80), step = q4(r, 1, 30);
+            for (int j = 0; j < 3; ++j) { std::vector<unsigned> nn = takeFree(d, 1); if (nn.empty()) break;
+                al.push_back(addAlignment(s, d, p, nn, false, p)); p += step; }
+            if (al.size() < 2) break;
+            CCSpec c; c.kind = r.coin() ? CCSpec::DISTRIBUTION : CCSpec::MULTISEP; c.dim = d; c.gap = step; c.eq = true;
+            for (size_t j = 0; j + 1 < al.size(); ++j) c.pairs.push_back(std::make_pair((unsigned) al[j], (unsigned) al[j + 1]));
+            s.ccs.push_back(c); break; }
+        default: {          // fixed-relative group over nodes free in both dimensions
+            std::vector<unsigned> ids;
+            for (unsigned i : pickSubset(r, n, n)) if (!used[0][i] && !used[1][i] && !ineq[0][i] && !ineq[1][i] && ids.size() < 3) ids.push_back(i);
+            if (ids.size() < 2) break;
+            for (unsigned i : ids) used[0][i] = used[1][i] = true;
+            CCSpec c; c.kind = CCSpec::FIXEDREL; c.ids = ids; c.fixedPos = false;
+            double sx = q4(r, -40, 40), sy = q4(r, -40, 40);
+            for (unsigned i : ids) { RectSpec &R = s.rects[i]; double w = R.X - R.x, h = R.Y - R.y;
+                double cx = s.hx[i] + sx, cy = s.hy[i] + sy; R.x = cx - w / 2; R.X = cx + w / 2; R.y = cy - h / 2; R.Y = cy + h / 2; }
+            s.ccs.push_back(c); break; }
+        }
+    }
+}
+
 // An unsatisfiable gadget among fresh constraints (independent of h).
 inline void plantUnsat(vh::Rng &r, Scene &s) {
     unsigned n = (unsigned) s.rects.size();
